@@ -10,7 +10,7 @@ RULES = {
     'C07.R3': 'decisions are copied unchanged by the four arithmetic schemas; unary operators touch every terminal and only terminals',
     'C07.R4': 'AffFunc operators are element-wise on both fields with the impl\'s own operator, left operand first; Neg negates both fields',
 }
-FLOORS = {'C07.R1': 33, 'C07.R3': 6, 'C07.R4': 17, 'C07.R2': 2}
+FLOORS = {'C07.R1': 33, 'C07.R3': 6, 'C07.R4': 17, 'C07.R2': 4}
 EXPLANATION = ('Sibling agreement over 4 operators x 8 ownership forms (+Neg) and the element-wise kernels; with C02.R1 (graft structure) the result is defined exactly '
                'when both operands are and its terminal is context.op(original), i.e. left.op(right).')
 DOES_NOT_DECIDE = 'nothing value-level beyond exact arithmetic; pruning on the fly is covered by C03'
